@@ -376,6 +376,10 @@ var recipes = []recipe{
 	// the host hands the sandbox a coroutine that is suspended inside a pcall made OUTSIDE the
 	// sandbox; resuming it inside lets that pcall finish there
 	{"resume-coroutine-suspended-in-outer-pcall", `pcall(co) local f = io.open(P, "w") if f then f:write("pwn") f:close() end pcall(os.remove, V)`},
+	// an error escapes the sandboxed function while a to-be-closed variable is pending: its
+	// handler still runs inside the sandbox (always spelled unprotected, see runRecipes)
+	{"escaping-error-close-handler-io", `local x <close> = setmetatable({}, {__close = function() os.remove(V) local f = io.open(P, "w") if f then f:write("pwn") f:close() end local p = io.popen("echo pwn > "..SENT.."/pwn") if p then p:read("a") end end}) error("boom")`},
+	{"escaping-error-two-close-handlers", `local y <close> = setmetatable({}, {__close = function() pcall(os.remove, V) pcall(dofile, SENT.."/mod.lua") end}) local x <close> = setmetatable({}, {__close = function() error("again") end}) error({})`},
 	{"getenv-date", `emit(os.getenv("HOME"), os.getenv("PATH") ~= nil) emit(os.date("%Y"), os.time(), os.clock())`},
 }
 
@@ -392,13 +396,18 @@ func runRecipes(c *vp.Child, fx *fixture, w *winWriter) {
 				if !c.Mine(idx) {
 					continue
 				}
-				if wrap > 0 && !c.Thorough() && (idx/3)%4 != 0 {
+				escaping := strings.HasPrefix(rc.name, "escaping-")
+				if wrap > 0 && !c.Thorough() && (idx/3)%4 != 0 && !escaping {
 					continue
 				}
 				seq++
 				id := fmt.Sprintf("b%d-r%d", c.Batch, seq)
 				body := "local P, K, D, V = SENT..\"/new.txt\", SENT..\"/keep.txt\", SENT..\"/data.txt\", SENT..\"/victim.txt\"\n"
-				switch wrap {
+				form := wrap
+				if escaping {
+					form = 2 // the error must leave the context function
+				}
+				switch form {
 				case 0: // every statement group protected, so later ones still run
 					body += "pcall(function() " + rc.src + " end)"
 				case 1: // inside a coroutine
